@@ -196,7 +196,7 @@ type c05pair struct {
 var c05features = []string{
 	"plain", "plain", "plain", "ptr-depth-plus", "ptr-depth-minus", "byte-uint8", "rune-int32", "any-iface", "alias-named", "alias-basic", "int-int64",
 	"slice-variadic", "chan-dir", "result-count", "param-count", "method-renamed", "method-dropped", "recv-pointer", "embed-value", "embed-ptr", "embed-iface",
-	"iface-embeds-iface", "T-is-interface", "T-nonstruct", "inner-map-elem", "inner-func-result", "array-len", "named-other-pkg", "param-order", "same-pkgname-composite", "same-pkgname-named", "sealed-promoted-from-embedded-base", "sealed-own-unexported-method", "deep-embedding-all-present", "deep-embedding-deep-method-missing", "deep-embedding-deep-method-wrong",
+	"iface-embeds-iface", "T-is-interface", "T-nonstruct", "inner-map-elem", "inner-func-result", "array-len", "named-other-pkg", "param-order", "same-pkgname-composite", "same-pkgname-named", "sealed-promoted-from-embedded-base", "sealed-own-unexported-method", "deep-embedding-all-present", "deep-embedding-deep-method-missing", "deep-embedding-deep-method-wrong", "T-is-alias-all-present", "T-is-alias-method-dropped",
 }
 
 func genPair(r *base.Rand, idx int, feature string) *c05pair {
@@ -352,6 +352,12 @@ func genPair(r *base.Rand, idx int, feature string) *c05pair {
 		p.embeds, p.deep = p.ifaceName+"Base", true
 		t0.params = append(t0.params, basic("bool"))
 		t0.variadic = false
+	case "T-is-alias-all-present":
+		p.viaEmbed = "alias" // type T = E; the methods are E's
+	case "T-is-alias-method-dropped":
+		p.viaEmbed = "alias"
+		p.tmethods = p.tmethods[1:]
+		p.recvPtr = p.recvPtr[1:]
 	case "iface-embeds-iface":
 		p.embeds = p.ifaceName + "Base"
 	case "T-is-interface":
@@ -416,7 +422,7 @@ func genModule(r *base.Rand, nPairs int, startFeature int) *c05module {
 	ifc.WriteString("package ifc\n\ntype Item struct{ N int }\n\ntype ID int\n\ntype AliasItem = Item\n\ntype AliasInt = int\n\n// SealBase lets other packages implement sealed interfaces by embedding it.\ntype SealBase struct{}\n\nfunc (SealBase) sealed() {}\n\n")
 	alt.WriteString("package altname\n\nimport \"m5/ifc\"\n\nvar _ ifc.ID\n\ntype Item struct{ Other string }\n\n")
 	implFiles := []*strings.Builder{{}, {}, {}, {}}
-	implFiles[0].WriteString("package impl\n\nimport (\n\tifc0 \"m5/aa/ifc\"\n\t\"m5/ifc\"\n\tifc2 \"m5/v2/ifc\"\n\t\"m5/yy\"\n)\n\nvar _ ifc0.Item\nvar _ ifc.ID\nvar _ altname.Item\nvar _ ifc2.Item\n\ntype Loc struct{}\n\ntype LocAlias = Loc\n\n// TinyX and EmptyX are targets of second annotation lines.\ntype TinyX interface{ TinyM() }\n\ntype EmptyX interface{}\n\n")
+	implFiles[0].WriteString("package impl\n\nimport (\n\tifc0 \"m5/aa/ifc\"\n\t_ \"m5/ab/ifc\"\n\t\"m5/ifc\"\n\tifc2 \"m5/v2/ifc\"\n\t\"m5/yy\"\n)\n\nvar _ ifc0.Item\nvar _ ifc.ID\nvar _ altname.Item\nvar _ ifc2.Item\n\ntype Loc struct{}\n\ntype LocAlias = Loc\n\n// TinyX and EmptyX are targets of second annotation lines.\ntype TinyX interface{ TinyM() }\n\ntype EmptyX interface{}\n\n")
 	implFiles[1].WriteString("package impl\n\nimport (\n\tii `m5/ifc`\n\tifc2 \"m5/v2/ifc\"\n\taa \"m5/yy\"\n)\n\nvar _ ii.ID\nvar _ aa.Item\nvar _ ifc2.Item\n\n")
 	implFiles[2].WriteString("package impl\n\nimport (\n\taa \"m5/ifc\"\n\tifc2 \"m5/v2/ifc\"\n\tii \"m5/yy\"\n)\n\nvar _ aa.ID\nvar _ ii.Item\nvar _ ifc2.Item\n\n")
 	implFiles[3].WriteString("package impl\n\nimport _ \"m5/ifc\"\n\n") // blank import only
@@ -552,6 +558,8 @@ func genModule(r *base.Rand, nPairs int, startFeature int) *c05module {
 			switch p.viaEmbed {
 			case "value":
 				fmt.Fprintf(tw, "type %s struct{ E%d }\n\ntype E%d struct{}\n\n", p.tname, p.idx, p.idx)
+			case "alias":
+				fmt.Fprintf(tw, "type %s = E%d\n\ntype E%d struct{}\n\n", p.tname, p.idx, p.idx)
 			case "ptr":
 				fmt.Fprintf(tw, "type %s struct{ *E%d }\n\ntype E%d struct{}\n\n", p.tname, p.idx, p.idx)
 			case "sealbase":
@@ -568,7 +576,7 @@ func genModule(r *base.Rand, nPairs int, startFeature int) *c05module {
 			}
 		}
 		recvT := p.tname
-		if p.viaEmbed == "value" || p.viaEmbed == "ptr" {
+		if p.viaEmbed == "value" || p.viaEmbed == "ptr" || p.viaEmbed == "alias" {
 			recvT = fmt.Sprintf("E%d", p.idx)
 		}
 		for i, tm := range p.tmethods {
@@ -624,6 +632,7 @@ func genModule(r *base.Rand, nPairs int, startFeature int) *c05module {
 	m.pairs = append(m.pairs, twins...)
 	m.files["ifc/ifc.go"] = ifc.String()
 	m.files["v2/ifc/ifc.go"] = "package ifc\n\ntype Item struct{ X bool }\n"
+	m.files["ab/ifc/ifc.go"] = "package ifc\n\n// blank-imported by f0.go before the regular import of m5/ifc (as net/http/pprof and runtime/pprof often are)\ntype Item struct{ Z int }\n"
 	m.files["aa/ifc/ifc.go"] = "package ifc\n\n// a package with the same declared name, imported under another name by f0.go and sorted before m5/ifc\ntype Item struct{ Y string }\n"
 	m.files["yy/alt.go"] = alt.String()
 	for i, b := range implFiles {
@@ -742,6 +751,7 @@ func c05oracle(dir string) (map[string]c05expect, error) {
 						target = pk.Types
 					} else {
 						lastElemOnly := false
+						regular := false
 						for _, is := range f.Imports {
 							path, _ := strconv.Unquote(is.Path.Value)
 							ip := pk.Imports[path]
@@ -755,7 +765,13 @@ func c05oracle(dir string) (map[string]c05expect, error) {
 								continue
 							}
 							if ip.Types.Name() == qual {
-								target = ip.Types
+								// a regular import binds the name; a blank or dot import only makes the package
+								// available to annotations (documented) when no regular import binds it
+								if is.Name == nil {
+									target, regular = ip.Types, true
+								} else if !regular {
+									target = ip.Types
+								}
 							} else if path[strings.LastIndex(path, "/")+1:] == qual {
 								lastElemOnly = true
 							}
